@@ -1,11 +1,24 @@
 """C18 — time-warping cost is the optimal coupling cost and the matching realises it
 (tracklib/algo/comparison.py: match / compare in the DTW, FDTW and FRECHET modes)."""
 import math, itertools
-from engine import Prop, fbits, bitsf, close, untok
+from engine import Prop, fbits, bitsf, close, untok, err_kind, load_known
 
 PS = ["1", "2", "inf"]
 PVAL = {"1": 1, "2": 2, "inf": float("inf")}
 TOL = 1e-9
+
+# ---------------------------------------------------------------------------------- how the exponent p is handed over
+# forms of a finite p = 0, 1, 2, 3 and of p = infinity; "fn" = a lambda computing the accumulation, "max" = the builtin
+FIN_FORMS = ["int", "float", "np.int8", "np.int16", "np.int32", "np.int64", "np.intc", "np.uint8", "np.uint16", "np.uint32",
+             "np.uint64", "np.float16", "np.float32", "np.float64", "fn"]
+INF_FORMS = ["float", "math.inf", "np.inf", "np.float16", "np.float32", "np.float64", "np.longdouble", "fn", "max"]
+# numpy scalar types whose name contains neither 'int' nor 'float': _p2weight leaves `weight` unbound for p not in {0, inf}
+UNBOUND_FORMS = ["np.longlong", "np.ulonglong", "np.longdouble"]
+LOWPREC_FORMS = ["np.float16", "np.float32"]
+MODE_MATCH = {"dtw": 2, "fdtw": 3, "frechet": 4}
+MODE_CMP = {"dtw": 106, "fdtw": 107, "frechet": 108}
+CLS_UNBOUND = "p-numpy-type-name-without-int-or-float"
+CLS_LOWPREC = "fdtw-exponent-float16-float32"
 
 
 # ---------------------------------------------------------------------------------- tracks
@@ -44,7 +57,9 @@ def ocost(a, b, dim, p):
             return (a[2] - b[2]) ** 2
         s = (a[0] - b[0]) ** 2 + (a[1] - b[1]) ** 2
         return s if dim == 2 else s + (a[2] - b[2]) ** 2
-    return odist(a, b, dim)
+    if p in ("1", "inf"):
+        return odist(a, b, dim)
+    return odist(a, b, dim) ** int(p)      # p = 3, 4, …
 
 
 def acc(p, x, c):
@@ -97,7 +112,7 @@ def coupling_of(pairs):
     return [(i, j) for j, l in enumerate(pairs) for i in l]
 
 
-def check_matching(C, p, out, n1, n2, what):
+def check_matching(C, p, out, n1, n2, what, cost=True):
     """the returned matching is a coupling, links everything, and costs `score`"""
     pairs = out["pairs"]
     if len(pairs) != n1:
@@ -122,6 +137,8 @@ def check_matching(C, p, out, n1, n2, what):
             return "%s: the matching is not a monotone unit-step coupling: %s then %s (pairs %s)" % (what, a, b, pairs)
     if out["nb_links"] != len(path):
         return "%s: nb_links = %s but the matching has %d links" % (what, out["nb_links"], len(path))
+    if not cost:
+        return None
     a = 0.0
     for (i, j) in path:
         a = acc(p, a, C[i][j])
@@ -138,29 +155,59 @@ class P(Prop):
         ("TracklibVerif.Props.C18", "TV.C18.score_symmetric", "T2: swapping the two tracks gives the same score when the point distance is symmetric (the table is transposed)"),
         ("TracklibVerif.Props.C18", "TV.C18.path_valid", "T3: the list S of the backward walk through M is a monotone unit-step coupling from the last pair to (0,0); nb_links is its length; the 'pair' feature lists exactly its pairs; every observation of both tracks is linked"),
         ("TracklibVerif.Props.C18", "TV.C18.path_realises", "T4: the accumulated cost of the returned coupling equals the reported score (each back-pointer designates a minimal predecessor)"),
-        ("TracklibVerif.Props.C18", "TV.C18.weight_mono", "_p2weight(p) is monotone in the accumulated cost for p = 1, 2, inf over an ordered field"),
+        ("TracklibVerif.Props.C18", "TV.C18.weight_mono", "_p2weight(p) is monotone in the accumulated cost for p = 0, 1, 2, 3, ..., inf over an ordered field"),
         ("TracklibVerif.Props.C18", "TV.C18.distance_symm", "_distance (dim 1, 2, 3) is symmetric over an ordered field, for any sqrt"),
         ("TracklibVerif.Props.C18", "TV.C18.fdtw_equal", "T5: _fdtw (best-first search; the queue only assumed to return an entry of least priority) reports the same score as _dtw, for any accumulation monotone and inflationary on the distances at hand, 'big' above every candidate cost"),
         ("TracklibVerif.Props.C18", "TV.C18.fdtw_path", "T5b: the matching returned by _fdtw (walk through the antecedent map A) is a monotone unit-step coupling whose accumulated cost is the score; pair/nb_links describe it; nobody left out"),
         ("TracklibVerif.Props.C18", "TV.C18.distance_nonneg", "_distance is non-negative when sqrt is"),
-        ("TracklibVerif.Props.C18", "TV.C18.weight_infl", "_p2weight(p) is inflationary on non-negative distances for p = 1, 2, inf"),
+        ("TracklibVerif.Props.C18", "TV.C18.weight_infl", "_p2weight(p) is inflationary on non-negative distances for p = 0, 1, 2, 3, ..., inf"),
         ("TracklibVerif.Props.C18", "TV.C18.match_fdtw_correct", "match(track1, track2, FDTW, p, dim) on non-empty tracks over an ordered field with sqrt >= 0 and big above every candidate cost: succeeds, same score as mode DTW, S is a coupling whose cost is the score, pair/nb_links describe S, nobody left out"),
         ("TracklibVerif.Props.C18", "TV.C18.match_correct", "match(track1, track2, DTW | FRECHET, p, dim) on non-empty tracks over an ordered field: succeeds, score = optimum over couplings, S is a coupling whose cost is the score, pair/nb_links describe S, nobody left out, swapped call reports the same score"),
+        ("TracklibVerif.Props.C18", "TV.C18.p2weight_number", "_p2weight(p) for a number whose type name contains 'int' or 'float' (Python int/float, numpy int8..64, uint8..64, float16..64): the accumulation of the VALUE of p (A + B**k, A + (B != 0) for 0, max for inf)"),
+        ("TracklibVerif.Props.C18", "TV.C18.p2weight_infinite", "an infinite p gives max(A, B) whatever its type (the test p == float('inf') comes last)"),
+        ("TracklibVerif.Props.C18", "TV.C18.p2weight_unrecognised", "a number other than 0 and inf whose type name contains none of int/float/function (numpy.longdouble, longlong, ulonglong, bool) leaves `weight` unbound: UnboundLocalError"),
+        ("TracklibVerif.Props.C18", "TV.C18.match_any_form", "match(track1, track2, <constant of the mode>, p) with p a number of value v in any recognised type is the call match_correct / match_fdtw_correct are about"),
+        ("TracklibVerif.Props.C18", "TV.C18.match_callable_form", "a callable p computing the accumulation of v (lambda, builtin max) is the same call as the number v"),
+        ("TracklibVerif.Props.C18", "TV.C18.match_unknown_mode", "a constant that is not a matching mode is refused (UnknownModeError)"),
+        ("TracklibVerif.Props.C18", "TV.C18.match_history_irrelevant", "match(m, track2) in the modes DTW / FRECHET, where m carries the feature rows of an earlier matching (or user features under the same names), returns exactly match(track1, track2) on the same positions without features"),
+        ("TracklibVerif.Props.C18", "TV.C18.match_fdtw_history", "the same for FDTW under the hypotheses of match_fdtw_correct"),
+        ("TracklibVerif.Props.C18", "TV.C18.session_history_irrelevant", "a whole session of match / compare calls (DTW, FRECHET) on shared objects, results reused as first or second argument: every call returns what it returns on copies that never went through match"),
+        ("TracklibVerif.Props.C18", "TV.C18.links_read_back", "reading the pair lists of the returned track observation by observation gives exactly the coupling S, first pair first (same pairs, order, multiplicity); the number of stored links is nb_links"),
+        ("TracklibVerif.Props.C18", "TV.C18.features_read_back", "on the track _dtw returns, observation j holds in pair its partners in coupling order and in diff / ex / ey the distance and coordinate differences to the LAST of them"),
+        ("TracklibVerif.Props.C18", "TV.C18.fdtw_links_read_back", "the same for _fdtw under the hypotheses of fdtw_equal"),
+        ("TracklibVerif.Props.C18", "TV.C18.compare_value", "compare(track1, track2, DTW | FDTW | FRECHET, p) is match followed by: the score for FRECHET, p = inf, p = 0; (score/nb_links)**(1/p) otherwise; errors are those of match"),
+        ("TracklibVerif.Props.C18", "TV.C18.compare_correct", "compare in the modes DTW / FRECHET on non-empty tracks over an ordered field: succeeds; FRECHET / p = inf: the discrete Frechet distance (least over couplings of the largest link); finite p: (score/nb_links)**(1/p) with score the optimum and max(n1,n2) <= nb_links <= n1+n2-1 the length of the returned optimal coupling"),
+        ("TracklibVerif.Props.C18", "TV.C18.compare_mean_power", "with exact arithmetic (root k a k-th root on non-negative numbers) compare(DTW, p = k)**k * nb_links = score = least sum of d**k over all couplings"),
+        ("TracklibVerif.Props.C18", "TV.C18.costBack_nonneg", "accumulated costs are non-negative when sqrt is"),
+        ("TracklibVerif.Props.C18", "TV.C18.npow_nonneg", "B**k >= 0 for B >= 0"),
     ]
     partial = []
-    open_statements = ["compare(): (score/nb_links)**(1/p) for finite p is modelled and compared but no theorem is stated about it (not part of the property); for FRECHET / p = inf compare() returns the score, covered by match_correct",
-                       "IEEE rounding: the theorems are over a linear order / ordered field; on the float runs the oracle compares with relative tolerance 1e-9"]
-    modelled = ("algo/comparison.py: match and compare (modes DTW, FDTW, FRECHET), _distance (dim 1/2/3), _p2weight (p = 1, 2, inf), "
+    open_statements = ["IEEE rounding: the theorems are over a linear order / ordered field; on the float runs the oracle compares with relative tolerance 1e-9",
+                       "session_history_irrelevant excludes the FDTW modes (3 / 107): their coupling is valid only under the hypotheses of match_fdtw_correct; match_fdtw_history is the single-call statement",
+                       "compare() of the FDTW mode: compare_value covers it, compare_correct does not (it would repeat the hypotheses of match_fdtw_correct)",
+                       "non-integer exponents (p = 1.5) and the function form of `dim` are neither modelled nor generated"]
+    modelled = ("algo/comparison.py: match and compare as called — dispatch on the integer mode constants (2/3/4, 106/107/108; UnknownModeError otherwise), "
+                "_dtw_matching / _fdtw_matching, _p2weight as its cascade of four tests on (str(type(p)), value of p) with UnboundLocalError when none fires, "
+                "for p = 0, 1, 2, 3, ... and inf in every Python / numpy scalar type and as a callable; _distance (dim 1/2/3); "
                 "_dtw (distance matrix, first row/column, forward step, predecessor encoding, backward walk), _fdtw + _update_node "
-                "(priority_dict.pop_smallest as 'least (priority, key)'), _fillAF_dtw (pair, diff, ex, ey, nb_links, score), "
-                "_dtw_comparison / _fdtw_comparison")
+                "(priority_dict.pop_smallest as 'least (priority, key)'), _fillAF_dtw on output = track1.copy() carrying the feature rows of an earlier "
+                "matching (createAnalyticalFeature no-op, reset of every pair list, then diff/pair/ex/ey/nb_links/score), _dtw_comparison / _fdtw_comparison "
+                "((score/nb_links)**(1/p), the TypeError of the fast variant on a callable p); sessions of calls on shared objects (runSeq)")
     rule = ("exhaustive: all ordered pairs of small tracks on the lattices {0,1}^2 (dim 2), {0,1,2} (dim 1) and {0,1,2}^2 (dim 2) "
             "(sizes per tier in exhaustive_scopes), each with p = 1, 2, inf, the swapped call and the FDTW score; random: sizes 1..8 (10% up to 12), "
-            "integer / half-integer lattices, axis-aligned integer tracks (exact ties in every dim) and general floats, dim 1/2/3, modes DTW/FDTW/FRECHET, "
-            "one case in ten through compare(). non-trivial = both tracks have at least 2 observations (a three-way minimum and a back-pointer choice exist); "
+            "integer / half-integer lattices, axis-aligned integer tracks (exact ties in every dim), general floats, projected survey coordinates (offsets 6e5 / 5e6, points up to 2 km apart) and (sessions) tracks 1e4..1e7 apart; coordinates as Python floats, Python ints or numpy.float64 (sessions), dim 1/2/3, modes DTW/FDTW/FRECHET, "
+            "one case in ten through compare(). Sessions (kind seq): 1..4 calls of match / compare on 2..4 shared tracks, the first or second argument being "
+            "a track or what an earlier match returned (55% / 20%), 12% of the tracks already carrying diff/pair/ex/ey features (lists, scalars, a subset); "
+            "p = 0, 1, 2, 3, inf in every form (Python int/float, numpy int8..64 / uint8..64 / intc / float16..64, math.inf / numpy.inf / numpy.longdouble(inf), "
+            "lambda, builtin max, omitted), mode constants as int / numpy.int64 / float / omitted / a constant of the other front end, dim as int / numpy.int64 / "
+            "float / omitted, verbose False / True / omitted, keyword or positional; exhaustive: a matched track matched again for every pair of modes, "
+            "every form of p on fixed pairs. The oracle recomputes the optimum for the requested p on the positions of the objects involved and validates "
+            "every returned matching (for p = 0, where 0**0 is a convention, only the matching). "
+            "non-trivial = both tracks have at least 2 observations (a three-way minimum and a back-pointer choice exist); "
             "the input histogram counts the cases where two least predecessors tie")
     trusted = ["priority_dict (heapq with lazy deletion) is modelled by its contract: pop_smallest returns an entry with the least (priority, key)",
-               "numpy float64 `**` and Python float `**` are modelled by `*` for p = 2 (compared with relative tolerance 1e-9)"]
+               "numpy float64 `**` and Python float `**` with an integer-valued exponent are modelled by repeated `*` (compared with relative tolerance 1e-9); x**(1.0/k) by sqrt for k = 2 and libm pow otherwise",
+               "str(type(p)) is computed by the harness on the object it hands to tracklib and passed to the model (blanks removed); the substring tests are the model's"]
 
     def setup(self):
         from tracklib.core.obs_coords import ENUCoords
@@ -168,8 +215,12 @@ class P(Prop):
         from tracklib.core.obs_time import ObsTime
         from tracklib.core.track import Track
         import tracklib.algo.comparison as C
+        import numpy as np
         self.C = C
+        self.np = np
         self.mk = lambda tr: Track([Obs(ENUCoords(x, y, z), ObsTime()) for (x, y, z) in pts(tr)])
+        # inputs of a listed (unrepaired) finding are generated only while it is listed: see classify()
+        self.listed = {e.get("class") for e in load_known(self.id) if e.get("status") == "finding"}
         self.MM = {"dtw": C.MODE_MATCHING_DTW, "fdtw": C.MODE_MATCHING_FDTW, "frechet": C.MODE_MATCHING_FRECHET}
         self.CM = {"dtw": C.MODE_COMPARISON_DTW, "fdtw": C.MODE_COMPARISON_FDTW, "frechet": C.MODE_COMPARISON_FRECHET}
 
@@ -179,11 +230,15 @@ class P(Prop):
             return ["mode DTW (with the FDTW score and the swapped score), p in {1,2,inf}: all ordered pairs of tracks of sizes 1..4 on the lattice {0,1}^2, dim 2 (340^2 pairs)",
                     "same, all ordered pairs of tracks of sizes 1..4 on the 1-D lattice {0,1,2}, dim 1 (120^2 pairs)",
                     "same, all ordered pairs of tracks of sizes 1..3 on the lattice {0,1,2}^2, dim 2, track1 up to the 8 symmetries of the square",
-                    "modes FDTW and FRECHET: all ordered pairs of tracks of sizes 1..3 on {0,1}^2 (dim 2) and on the 1-D lattice {0,1,2} (dim 1)"]
+                    "modes FDTW and FRECHET: all ordered pairs of tracks of sizes 1..3 on {0,1}^2 (dim 2) and on the 1-D lattice {0,1,2} (dim 1)",
+                    "a matched track matched again, m = match(t1, t2, modeA, pA); match(m, t3, modeB, pB): every pair of modes (9), (pA, pB) in {(1,1), (2,inf), (inf,2)}, all ordered pairs (t1, t2) of sizes 1..3 on the 1-D lattice {0,1,2}, t3 = mirror image of t2 + one point",
+                    "every form of p (15 forms of 0, 1, 2, 3; 9 forms of inf) x {DTW, FDTW} x {match, compare} on 6 fixed pairs of tracks (dim 1, 2, 3; with and without ties)"]
         return ["mode DTW (with the FDTW score and the swapped score), p in {1,2,inf}: all ordered pairs of tracks of sizes 1..3 on the lattice {0,1}^2, dim 2 (84^2 pairs)",
                 "same, all ordered pairs of tracks of sizes 1..3 on the 1-D lattice {0,1,2}, dim 1 (39^2 pairs)",
                 "same, all ordered pairs of tracks of sizes 1..2 on the lattice {0,1,2}^2, dim 2 (90^2 pairs)",
-                "modes FDTW and FRECHET: all ordered pairs of tracks of sizes 1..3 on the 1-D lattice {0,1,2}, dim 1"]
+                "modes FDTW and FRECHET: all ordered pairs of tracks of sizes 1..3 on the 1-D lattice {0,1,2}, dim 1",
+                "a matched track matched again, m = match(t1, t2, modeA, pA); match(m, t3, modeB, pB): every pair of modes (9), (pA, pB) in {(1,1), (2,inf), (inf,2)}, all ordered pairs (t1, t2) of sizes 1..2 on the 1-D lattice {0,1,2}, t3 = mirror image of t2 + one point",
+                "every form of p (15 forms of 0, 1, 2, 3; 9 forms of inf) x {DTW, FDTW} x {match, compare} on 6 fixed pairs of tracks (dim 1, 2, 3; with and without ties)"]
 
     @staticmethod
     def sym_canon(t, g=3):
@@ -227,7 +282,7 @@ class P(Prop):
             r = rng.random()
             hi = 8 if r < 0.9 else 12
             n1, n2 = rng.randint(1, hi), rng.randint(1, hi)
-            style = rng.choice(["lat3", "lat3", "lat2", "half", "float", "line"])
+            style = rng.choice(["lat3", "lat3", "lat2", "half", "float", "line", "utm"])
             dim = rng.choice([1, 2, 2, 3])
             mode = rng.choice(["dtw", "dtw", "fdtw", "frechet"])
             ps = ["inf"] if mode == "frechet" else [rng.choice(PS)]
@@ -237,7 +292,105 @@ class P(Prop):
                 out.append({"kind": "cmp", "mode": mode, "p": ps[0], "dim": dim, "a": a, "b": b})
             else:
                 out.append({"kind": "m", "mode": mode, "ps": ps, "dim": dim, "a": a, "b": b})
+        out += self.seq_cases(rng, tier)
         return out
+
+    # ---------------------------------------------------------------- sessions: histories, argument forms, front ends
+    @staticmethod
+    def step(f, a, b, mode, p, pf="int", dim=2, mf="const", df="int", vb="F", st="kw"):
+        """one call of a session: f = m (match) | c (compare); a, b = 't<k>' (track k) | 'r<k>' (what step k returned);
+        mode = dtw | fdtw | frechet | bad (a constant of the other front end); mf = how the constant is passed
+        (const | np | float | default); p = '0' '1' '2' '3' 'inf' in the form pf (FIN_FORMS / INF_FORMS / default);
+        dim in the form df (int | np | float | default); vb = verbose F | T | default; st = kw | pos"""
+        return {"f": f, "a": a, "b": b, "mode": mode, "mf": mf, "p": p, "pf": pf, "dim": dim, "df": df, "vb": vb, "st": st}
+
+    def seq_cases(self, rng, tier):
+        out = []
+        th = tier == "thorough"
+        modes = ["dtw", "fdtw", "frechet"]
+        # (S1) a matched track matched again: every pair of modes, three pairs of exponents, all pairs of small lattice tracks
+        ts = lat_tracks(3, 3 if th else 2)
+        for a in ts:
+            for b in ts:
+                c = "".join(str(2 - int(ch)) for ch in b) + "1"
+                for mA in modes:
+                    for mB in modes:
+                        for (pA, pB) in (("1", "1"), ("2", "inf"), ("inf", "2")):
+                            out.append({"kind": "seq", "tracks": ["3:" + a, "3:" + b, "3:" + c], "pre": ["none"] * 3,
+                                        "steps": [self.step("m", "t0", "t1", mA, pA, "int" if pA != "inf" else "float", 1),
+                                                  self.step("m", "r0", "t2", mB, pB, "int" if pB != "inf" else "float", 1)]})
+        # (S2) every form of p, every value, both front ends, DTW and FDTW, on fixed pairs of tracks
+        fixed = [("3:0120", "3:1021", 1), ("3:048", "3:6420", 2), ("2:0132", "2:31", 2),
+                 ([[0, 0, 0], [1, 0, 0.5], [2, 0.5, 1], [3, 0, 0], [4, 0.25, 2]], [[0, 1, 0], [1.5, 1, 1], [3, 1.25, 0], [4.25, 1, 3]], 2),
+                 ([[0.1, 0.2, 0.3], [1.3, -0.7, 0.9], [2.2, 0.4, -1.1]], [[0.3, 0.1, 0.2], [0.9, 1.1, 0.8], [2.5, 0.2, 0.1], [2.9, -0.3, 1.7]], 3),
+                 ([[0, 0, 3.5], [0, 0, 1.25], [0, 0, 2.75], [0, 0, 0.5]], [[0, 0, 1.5], [0, 0, 3.0], [0, 0, 0.25]], 1)]
+        forms = [(p, pf) for p in ("0", "1", "2", "3") for pf in FIN_FORMS] + [("inf", pf) for pf in INF_FORMS]
+        for (a, b, dim) in fixed:
+            for (p, pf) in forms:
+                for mode in ("dtw", "fdtw"):
+                    for f in ("m", "c"):
+                        if self.gated(f, mode, p, pf):
+                            continue
+                        out.append({"kind": "seq", "tracks": [a, b], "pre": ["none", "none"],
+                                    "steps": [self.step(f, "t0", "t1", mode, p, pf, dim)]})
+            for cls, fs in ((CLS_UNBOUND, UNBOUND_FORMS), (CLS_LOWPREC, LOWPREC_FORMS)):
+                if cls in self.listed:
+                    for pf in fs:
+                        out.append({"kind": "seq", "tracks": [a, b], "pre": ["none", "none"],
+                                    "steps": [self.step("m", "t0", "t1", "fdtw", "2", pf, dim)]})
+        # (S3) random sessions
+        for k in range(30000 if th else 4000):
+            out.append(self.rand_session(rng))
+        return out
+
+    def gated(self, f, mode, p, pf):
+        """inputs of the two findings reported with this check (listed in known_findings.json or not generated)"""
+        if pf in UNBOUND_FORMS and p not in ("0", "inf") and mode != "frechet":
+            return CLS_UNBOUND
+        if pf in LOWPREC_FORMS and p not in ("0", "inf") and (mode == "fdtw" or (f == "c" and p not in ("1", "2"))):
+            return CLS_LOWPREC     # also compare(): `1.0/p` is evaluated in the precision of p (1/3 in float16)
+        return None
+
+    def rand_session(self, rng):
+        nt = rng.randint(2, 4)
+        style = rng.choice(["lat3", "lat3", "lat3", "lat2", "lat2", "half", "half", "float", "float", "line", "line", "utm", "utm", "far"])
+        hi = 4 if rng.random() < 0.6 else 7
+        tracks = [self.rand_track(rng, rng.randint(1, hi), style) for _ in range(nt)]
+        pre = [rng.choice(["lists", "scalars", "partial"]) if rng.random() < 0.12 else "none" for _ in range(nt)]
+        ct = rng.choice(["float", "float", "np.float64", "int"])
+        if ct == "int" and not all(float(v).is_integer() for t in tracks for q in t for v in q):
+            ct = "float"
+        steps, okres = [], []
+        for k in range(rng.choice([1, 1, 2, 2, 3, 4])):
+            f = "m" if rng.random() < 0.8 else "c"
+            a = "r%d" % rng.choice(okres) if okres and rng.random() < 0.55 else "t%d" % rng.randrange(nt)
+            b = "r%d" % rng.choice(okres) if okres and rng.random() < 0.2 else "t%d" % rng.randrange(nt)
+            mode = rng.choice(["dtw", "dtw", "fdtw", "frechet"])
+            if rng.random() < 0.03:
+                mode = "bad"
+            p = rng.choice(["1", "1", "2", "2", "inf", "inf", "3", "0"])
+            pf = rng.choice(INF_FORMS if p == "inf" else FIN_FORMS)
+            r = rng.random()
+            if r < 0.25:
+                pf = "float" if p == "inf" else rng.choice(["int", "float"])
+            elif r < 0.32 and p == "1":
+                pf = "default"
+            if self.gated(f, mode, p, pf):
+                pf = "float"
+            dim = rng.choice([1, 2, 2, 3])
+            df = rng.choice(["int", "int", "np", "float"]) if dim != 2 or rng.random() < 0.8 else "default"
+            mf = rng.choice(["const", "const", "const", "np", "float"])
+            if f == "m" and mode == "dtw" and rng.random() < 0.2:
+                mf = "default"
+            vb = rng.choice(["F", "F", "T", "default"])
+            st = rng.choice(["kw", "kw", "pos"])
+            steps.append(self.step(f, a, b, mode, p, pf, dim, mf, df, vb, st))
+            if f == "m" and mode != "bad":
+                okres.append(k)
+        case = {"kind": "seq", "tracks": tracks, "pre": pre, "steps": steps}
+        if ct != "float":
+            case["ct"] = ct      # the coordinates are handed to ENUCoords as Python ints / numpy.float64 instead of Python floats
+        return case
 
     def rand_track(self, rng, n, style):
         if style == "lat3":
@@ -249,6 +402,11 @@ class P(Prop):
         if style == "line":   # axis-aligned: distances are integers, ties are exact in every dim
             return [[float(rng.randint(0, 4)), 0.0, float(rng.randint(0, 3))] for _ in range(n)] if rng.random() < 0.5 else \
                    [[0.0, float(rng.randint(0, 4)), 0.0] for _ in range(n)]
+        if style == "far":    # tracks far apart: accumulated costs of 1e12 .. 1e21 for p = 2, 3
+            return [[round(rng.uniform(0, 1) * 10 ** rng.randint(4, 7), 1), round(rng.uniform(0, 1) * 10 ** rng.randint(4, 7), 1),
+                     round(rng.uniform(0, 1e4), 1)] for _ in range(n)]
+        if style == "utm":    # projected coordinates of a real survey: large offsets, metres to kilometres between points
+            return [[6.0e5 + round(rng.uniform(0, 2000), 2), 5.0e6 + round(rng.uniform(0, 2000), 2), round(rng.uniform(100, 900), 1)] for _ in range(n)]
         return [[rng.uniform(-10, 10), rng.uniform(-10, 10), rng.uniform(-3, 3)] for _ in range(n)]
 
     def has_tie(self, case):
@@ -274,6 +432,13 @@ class P(Prop):
         return tie
 
     def describe(self, case):
+        if case["kind"] == "seq":
+            sts = case["steps"]
+            return {"kind": "seq", "calls": len(sts), "front": ",".join(sorted({st["f"] for st in sts})),
+                    "first_argument_already_matched": any(st["a"].startswith("r") for st in sts),
+                    "track_with_earlier_features": any(q != "none" for q in case["pre"]),
+                    "p_form": sts[0]["pf"], "p": sts[0]["p"], "mode": sts[0]["mode"], "coordinates": case.get("ct", "float"),
+                    "argument_style": "%s mode=%s dim=%s verbose=%s" % (sts[0]["st"], sts[0]["mf"], sts[0]["df"], sts[0]["vb"])}
         t1, t2 = pts(case["a"]), pts(case["b"])
         return {"kind": case["kind"], "mode": case["mode"], "dim": case["dim"],
                 "p": ",".join(case["ps"]) if case["kind"] == "m" else case["p"],
@@ -282,7 +447,223 @@ class P(Prop):
 
     def nontrivial(self, case):
         # at least one interior cell: a genuine three-way minimum and a back-pointer choice
+        if case["kind"] == "seq":
+            return any(len(self.geo(case, st["a"])) >= 2 and len(self.geo(case, st["b"])) >= 2 for st in case["steps"])
         return len(pts(case["a"])) >= 2 and len(pts(case["b"])) >= 2
+
+    # ---------------------------------------------------------------- sessions: helpers
+    @staticmethod
+    def geo(case, ref):
+        """the positions of object `ref`: a track of the session, or (the track `match` returns is a copy of its first
+        argument) those of the first argument of the step that produced it"""
+        while ref[0] == "r":
+            ref = case["steps"][int(ref[1:])]["a"]
+        return pts(case["tracks"][int(ref[1:])])
+
+    @staticmethod
+    def idx(case, ref):
+        return int(ref[1:]) + (len(case["tracks"]) if ref[0] == "r" else 0)
+
+    def mkp(self, p, pf):
+        """the object handed over as `p`"""
+        np = self.np
+        if pf == "fn":
+            if p == "inf":
+                return lambda A, B: max(A, B)
+            k = int(p)
+            return (lambda A, B: A + (B != 0) * 1) if k == 0 else (lambda A, B: A + B ** k)
+        if pf == "max":
+            return max
+        if p == "inf":
+            if pf in ("float", "math.inf", "np.inf"):
+                return {"float": float("inf"), "math.inf": math.inf, "np.inf": np.inf}[pf]
+            return getattr(np, pf[3:])("inf")
+        k = int(p)
+        if pf in ("int", "default"):
+            return k
+        if pf == "float":
+            return float(k)
+        return getattr(np, pf[3:])(k)
+
+    def mk_pre(self, tr, pre, ct="float"):
+        """a track of the session; `pre`: it already carries features under the names `match` writes; `ct`: type of the coordinates"""
+        if ct == "float":
+            t = self.mk(tr)
+        else:
+            from tracklib.core.obs_coords import ENUCoords
+            from tracklib.core.obs import Obs
+            from tracklib.core.obs_time import ObsTime
+            from tracklib.core.track import Track
+            conv = int if ct == "int" else self.np.float64
+            t = Track([Obs(ENUCoords(conv(x), conv(y), conv(z)), ObsTime()) for (x, y, z) in pts(tr)])
+        n = t.size()
+        if pre == "lists":
+            t.createAnalyticalFeature("diff", 5.0)
+            t.createAnalyticalFeature("pair", [[9, j] for j in range(n)])
+            t.createAnalyticalFeature("ex", 6.0)
+            t.createAnalyticalFeature("ey", 7.0)
+        elif pre == "scalars":
+            for nm, v in (("diff", 5.0), ("pair", 7.0), ("ex", 6.0), ("ey", 7.0)):
+                t.createAnalyticalFeature(nm, v)
+        elif pre == "partial":
+            t.createAnalyticalFeature("speed", 1.0)
+            t.createAnalyticalFeature("pair", [[9, j] for j in range(n)])
+            t.createAnalyticalFeature("ey", 7.0)
+        return t
+
+    def call(self, st, A, B):
+        np = self.np
+        C = self.C
+        fn = C.match if st["f"] == "m" else C.compare
+        conv = {"const": int, "int": int, "np": np.int64, "float": float}
+        args = []        # (name, value) in the order of the signature: mode, p, dim, verbose
+        if st["mf"] != "default":
+            if st["mode"] == "bad":
+                v = (MODE_CMP if st["f"] == "m" else MODE_MATCH)["dtw"]
+            else:
+                v = (MODE_MATCH if st["f"] == "m" else MODE_CMP)[st["mode"]]
+            args.append(("mode", conv[st["mf"]](v)))
+        if st["pf"] != "default":
+            args.append(("p", self.mkp(st["p"], st["pf"])))
+        if st["df"] != "default":
+            args.append(("dim", conv[st["df"]](st["dim"])))
+        if st["vb"] != "default":
+            args.append(("verbose", st["vb"] == "T"))
+        pos, kw = [], dict(args)
+        if st["st"] == "pos":
+            for nm in ("mode", "p", "dim", "verbose"):
+                if nm not in kw:
+                    break
+                pos.append(kw.pop(nm))
+        return fn(A, B, *pos, **kw)
+
+    def impl_seq(self, case):
+        objs = [self.mk_pre(tr, pre, case.get("ct", "float")) for tr, pre in zip(case["tracks"], case["pre"])]
+        res = []
+        for st in case["steps"]:
+            A, B = objs[self.idx(case, st["a"])], objs[self.idx(case, st["b"])]
+            if A is None or B is None:
+                res.append({"err": "bad-ref"})
+                objs.append(None)
+                continue
+            try:
+                r = self.call(st, A, B)
+            except BaseException as e:
+                if isinstance(e, KeyboardInterrupt):
+                    raise
+                res.append({"err": err_kind(e), "detail": str(e)[:120]})
+                objs.append(None)
+                continue
+            if st["f"] == "m":
+                res.append(self.out_of(r))
+                objs.append(r)
+            else:
+                res.append({"value": float(r)})
+                objs.append(None)
+        return {"steps": res}
+
+    def req_seq(self, case):
+        n = len(case["tracks"])
+        toks = []
+        for st in case["steps"]:
+            if st["mf"] == "default":
+                mode = MODE_MATCH["dtw"] if st["f"] == "m" else 101
+            elif st["mode"] == "bad":
+                mode = (MODE_CMP if st["f"] == "m" else MODE_MATCH)["dtw"]
+            else:
+                mode = (MODE_MATCH if st["f"] == "m" else MODE_CMP)[st["mode"]]
+            ty = str(type(self.mkp(st["p"], st["pf"]))).replace(" ", "")
+            val, fnw = (("-", st["p"]) if st["pf"] in ("fn", "max") else (st["p"], "-"))
+            toks.append(":".join([st["f"], str(mode), ty, val, fnw, str(st["dim"]), str(self.idx(case, st["a"])), str(self.idx(case, st["b"]))]))
+        return ["C18.seq %s %s %s" % ("|".join(self.tok(t) for t in case["tracks"]),
+                                      ",".join("0" if q == "none" else "1" for q in case["pre"]), ";".join(toks))]
+
+    def dec_seq(self, case, replies):
+        if replies[0] == "bad-request":
+            raise ValueError("bad-request")
+        res = []
+        for st, r in zip(case["steps"], replies[0].split(" | ")):
+            if r.startswith("err:") or r in ("bad-ref", "unmodelled"):
+                res.append({"err": r})
+            elif st["f"] == "m":
+                res.append(self.parse_out(r))
+            else:
+                res.append({"value": bitsf(r)})
+        return {"steps": res}
+
+    def exact_tracks(self, t1, t2, dim):
+        for q in t1 + t2:
+            if any(v * 2 != int(v * 2) or abs(v) > 1000 for v in q):
+                return False
+        if dim == 1:
+            return True
+        return all(odist(a, b, dim) * 2 == int(odist(a, b, dim) * 2) for a in t1 for b in t2)
+
+    def cmp_seq(self, case, impl_out, model_out):
+        if "steps" not in impl_out or "steps" not in model_out:
+            return "impl=%s model=%s" % (str(impl_out)[:300], str(model_out)[:300])
+        for k, st in enumerate(case["steps"]):
+            io, mo = impl_out["steps"][k], model_out["steps"][k]
+            if self.gated(st["f"], st["mode"], st["p"], st["pf"]) == CLS_LOWPREC:
+                continue     # d**p is computed in float16/float32 there: listed finding, the model works in float64
+            if "err" in io or "err" in mo:
+                if io.get("err") != mo.get("err"):
+                    return "call %d: impl=%s model=%s" % (k, str(io)[:200], str(mo)[:200])
+                continue
+            if st["f"] == "c":
+                if not close(io["value"], mo["value"], TOL):
+                    return "call %d: compare impl=%r model=%r" % (k, io["value"], mo["value"])
+                continue
+            if io["pairs"] != mo["pairs"]:
+                t1, t2 = self.geo(case, st["a"]), self.geo(case, st["b"])
+                pe = "inf" if st["mode"] == "frechet" else st["p"]
+                Cm = cost_matrix(t1, t2, st["dim"], pe)
+                bad = check_matching(Cm, pe, io, len(t1), len(t2), "implementation", pe != "0") or \
+                    check_matching(Cm, pe, mo, len(t1), len(t2), "model", pe != "0")
+                if bad or not close(io["score"], mo["score"], TOL):
+                    return "call %d: pairs impl=%s model=%s (%s)" % (k, io["pairs"], mo["pairs"], bad or "scores differ")
+                if self.exact_tracks(t1, t2, st["dim"]):
+                    return "call %d: exact-arithmetic input, yet the couplings differ: impl=%s model=%s" % (k, io["pairs"], mo["pairs"])
+                continue
+            if not close(io, mo, TOL):
+                return "call %d: impl=%s model=%s" % (k, io, mo)
+        return None
+
+    def step_failure(self, case, st, o):
+        """the property's oracle on what one call returned"""
+        t1, t2 = self.geo(case, st["a"]), self.geo(case, st["b"])
+        n1, n2 = len(t1), len(t2)
+        if n1 == 0 or n2 == 0 or st["mode"] == "bad":
+            return None     # sizes 1..n; a constant of the other front end is refused (UnknownModeError), not part of the statement
+        what = "%s(%s, %s, %s, p=%s as %s, dim=%d)" % ("match" if st["f"] == "m" else "compare", st["a"], st["b"], st["mode"], st["p"], st["pf"], st["dim"])
+        if st["f"] == "c" and st["pf"] in ("fn", "max"):
+            return None     # compare() with a callable p: outside the statement (p in {1, 2, infinity}); correspondence only
+        if "err" in o:
+            return "%s raised %s (%s)" % (what, o["err"], o.get("detail", ""))
+        pe = "inf" if st["mode"] == "frechet" else st["p"]
+        dim = st["dim"]
+        if st["f"] == "c":
+            if pe != "inf":
+                return None   # (score/nb_links)^(1/p): not part of the statement; correspondence only
+            want = optimum(cost_matrix(t1, t2, dim, "inf"), "inf")
+            if not close(o["value"], want, TOL):
+                return "%s = %r, the discrete Frechet distance (least maximal link over all couplings) is %r" % (what, o["value"], want)
+            return None
+        Cm = cost_matrix(t1, t2, dim, pe if pe != "0" else "1")
+        if pe != "0":      # p = 0 (number of links with a non-zero distance; 0**0 is a convention): only the matching is judged
+            want = optimum(Cm, pe)
+            if not close(o["score"], want, TOL):
+                return "%s: score %r, the least accumulated cost over all monotone couplings for the requested p is %r" % (what, o["score"], want)
+        return check_matching(Cm, pe, o, n1, n2, what, pe != "0")
+
+    def first_failure(self, case, out):
+        if "err" in out or "steps" not in out:
+            return (0, "raised %s (%s)" % (out.get("err"), out.get("detail", "")))
+        for k, st in enumerate(case["steps"]):
+            m = self.step_failure(case, st, out["steps"][k])
+            if m:
+                return (k, "call %d: %s" % (k, m))
+        return None
 
     # ---------------------------------------------------------------- implementation
     @staticmethod
@@ -295,7 +676,13 @@ class P(Prop):
                 "diff": [float(v) for v in m["diff"]], "ex": [float(v) for v in m["ex"]], "ey": [float(v) for v in m["ey"]]}
 
     def impl(self, case):
+        if case.get("_warm"):
+            # a session built by warmups(): it must fail by itself, so the module starts from its import-time state
+            import importlib
+            importlib.reload(self.C)
         C = self.C
+        if case["kind"] == "seq":
+            return self.impl_seq(case)
         t1, t2 = self.mk(case["a"]), self.mk(case["b"])
         dim, mode = case["dim"], case["mode"]
         if case["kind"] == "cmp":
@@ -321,6 +708,8 @@ class P(Prop):
         return ";".join(",".join(fbits(v) for v in pt) for pt in q) if q else "_"
 
     def requests(self, case):
+        if case["kind"] == "seq":
+            return self.req_seq(case)
         a, b = self.tok(case["a"]), self.tok(case["b"])
         dim, mode = case["dim"], case["mode"]
         if case["kind"] == "cmp":
@@ -346,6 +735,8 @@ class P(Prop):
                 "diff": fl(f[4]), "ex": fl(f[5]), "ey": fl(f[6])}
 
     def decode(self, case, replies):
+        if case["kind"] == "seq":
+            return self.dec_seq(case, replies)
         if any(r.startswith("err:") for r in replies):
             return {"err": [r for r in replies if r.startswith("err:")][0]}
         if case["kind"] == "cmp":
@@ -362,6 +753,8 @@ class P(Prop):
         return res
 
     def compare(self, case, impl_out, model_out):
+        if case["kind"] == "seq":
+            return self.cmp_seq(case, impl_out, model_out)
         if "err" in impl_out or "err" in model_out:
             if impl_out.get("err") == model_out.get("err"):
                 return None
@@ -407,6 +800,9 @@ class P(Prop):
 
     # ---------------------------------------------------------------- oracle (transfer)
     def spec(self, case, out):
+        if case["kind"] == "seq":
+            f = self.first_failure(case, out)
+            return f[1] if f else None
         t1, t2 = pts(case["a"]), pts(case["b"])
         n1, n2 = len(t1), len(t2)
         if n1 == 0 or n2 == 0:
@@ -441,8 +837,118 @@ class P(Prop):
                 return "%s: compare(FRECHET) = %r, the discrete Frechet distance is %r" % (what, o["compare"], want)
         return None
 
+    def classify(self, case, impl_out, msg):
+        """two classes, each a decidable predicate on the first failing call of a session:
+        p-numpy-type-name-without-int-or-float: p is a numpy scalar of type longlong / ulonglong / longdouble with a value other
+            than 0 and infinity, and the call raised UnboundLocalError (`_p2weight` recognises numbers by the substrings
+            'int' / 'float' of the type name);
+        fdtw-exponent-float16-float32: FDTW (match or compare) with a finite p >= 1 given as numpy.float16 / numpy.float32:
+            `_fdtw` raises a Python float to that power, which numpy evaluates in the precision of the exponent"""
+        if case.get("kind") != "seq" or not isinstance(impl_out, dict) or "steps" not in impl_out:
+            return None
+        f = self.first_failure(case, impl_out)
+        if not f:
+            return None
+        st, o = case["steps"][f[0]], impl_out["steps"][f[0]]
+        cls = self.gated(st["f"], st["mode"], st["p"], st["pf"])
+        if cls == CLS_UNBOUND and o.get("err") == "err:UnboundLocalError":
+            return cls
+        if cls == CLS_LOWPREC and "err" not in o:
+            return cls
+        return None
+
     # ---------------------------------------------------------------- shrinking / search
+    def shrink_seq(self, case):
+        steps, nt = case["steps"], len(case["tracks"])
+        # drop the last call; drop a call nobody refers to (later references renumbered)
+        for k in range(len(steps) - 1, -1, -1):
+            if len(steps) > 1 and not any(r == "r%d" % k for st in steps for r in (st["a"], st["b"])):
+                def ren(r):
+                    return "r%d" % (int(r[1:]) - 1) if r[0] == "r" and int(r[1:]) > k else r
+                yield dict(case, steps=[dict(st, a=ren(st["a"]), b=ren(st["b"])) for i, st in enumerate(steps) if i != k])
+        if any(q != "none" for q in case["pre"]):
+            yield dict(case, pre=["none"] * nt)
+        # drop a track no call refers to (later tracks renumbered)
+        for i in range(nt - 1, -1, -1):
+            if not any(r == "t%d" % i for st in steps for r in (st["a"], st["b"])):
+                def rent(r, i=i):
+                    return "t%d" % (int(r[1:]) - 1) if r[0] == "t" and int(r[1:]) > i else r
+                yield dict(case, tracks=case["tracks"][:i] + case["tracks"][i + 1:], pre=case["pre"][:i] + case["pre"][i + 1:],
+                           steps=[dict(st, a=rent(st["a"]), b=rent(st["b"])) for st in steps])
+        # plainer calls
+        for k, st in enumerate(steps):
+            plain = dict(st, mf="const", df="int", vb="F", st="kw")
+            if plain != st:
+                yield dict(case, steps=steps[:k] + [plain] + steps[k + 1:])
+            if st["pf"] not in ("int", "float"):
+                yield dict(case, steps=steps[:k] + [dict(st, pf="float" if st["p"] == "inf" else "int")] + steps[k + 1:])
+            if st["a"][0] == "r":
+                yield dict(case, steps=steps[:k] + [dict(st, a=steps[int(st["a"][1:])]["a"])] + steps[k + 1:])
+            if st["b"][0] == "r":
+                yield dict(case, steps=steps[:k] + [dict(st, b=steps[int(st["b"][1:])]["a"])] + steps[k + 1:])
+            if st["dim"] != 2 and st["dim"] != 1:
+                yield dict(case, steps=steps[:k] + [dict(st, dim=2)] + steps[k + 1:])
+        if case.get("ct"):
+            yield {k: v for k, v in case.items() if k != "ct"}
+        # smaller tracks, smaller coordinates
+        trs = [pts(t) for t in case["tracks"]]
+        for i, t in enumerate(trs):
+            for k in range(len(t)):
+                if len(t) > 1:
+                    yield dict(case, tracks=trs[:i] + [t[:k] + t[k + 1:]] + trs[i + 1:])
+        for i, t in enumerate(trs):
+            for k in range(len(t)):
+                for c in range(3):
+                    if t[k][c] != 0:
+                        t2 = [list(q) for q in t]
+                        t2[k][c] = 0.0 if abs(t[k][c]) <= 1 else float(int(t[k][c] / 2))
+                        yield dict(case, tracks=trs[:i] + [t2] + trs[i + 1:])
+
+    def as_session(self, case):
+        """a single-call case written as a session"""
+        if case["kind"] == "seq":
+            return case
+        mode, dim = case["mode"], case["dim"]
+        pf = lambda p: "float" if p == "inf" else "int"
+        steps = []
+        if case["kind"] == "cmp":
+            p = self.parg(case) if mode == "frechet" else case["p"]
+            steps.append(self.step("c", "t0", "t1", mode, p, pf(p), dim))
+        else:
+            for p in case["ps"]:
+                pa = self.parg(case) if mode == "frechet" else p
+                steps.append(self.step("m", "t0", "t1", mode, pa, pf(pa), dim))
+                steps.append(self.step("m", "t1", "t0", mode, pa, pf(pa), dim))
+                if mode == "dtw":
+                    steps.append(self.step("m", "t0", "t1", "fdtw", p, pf(p), dim))
+        return {"kind": "seq", "tracks": [pts(case["a"]), pts(case["b"])], "pre": ["none", "none"], "steps": steps}
+
+    def warmups(self, case):
+        """for a case that fails in a long run but not alone (state kept by the library between calls): the same calls made
+        first on other tracks of the same sizes (first points kept / everything moved), then on the tracks of the case"""
+        ss = self.as_session(case)
+        nt, ns = len(ss["tracks"]), len(ss["steps"])
+        sh = lambda r: ("t%d" % (int(r[1:]) + nt)) if r[0] == "t" else ("r%d" % (int(r[1:]) + ns))
+        later = [dict(st, a=sh(st["a"]), b=sh(st["b"])) for st in ss["steps"]]
+        for var in ("keep-first", "all", 0, 1, 2):
+            def moved(i, k, c, v, var=var):
+                if (var == "keep-first" and k == 0) or (isinstance(var, int) and c != var):
+                    return v
+                return v + (1 + (k + c) % 2) * (i + 1)      # track i moved by its own amount: the distances change
+            other = [[[moved(i, k, c, v) for c, v in enumerate(q)] for k, q in enumerate(pts(t))] for i, t in enumerate(ss["tracks"])]
+            yield {"kind": "seq", "_warm": True, "tracks": other + [pts(t) for t in ss["tracks"]], "pre": ss["pre"] * 2,
+                   "steps": ss["steps"] + later}
+
     def shrink(self, case):
+        if not case.get("_warm") and case.get("a") != [] and case.get("b") != []:
+            from engine import run_impl
+            if self.spec(case, run_impl(self, case)) is None:
+                # not failing by itself: what fails may depend on what the library remembers from earlier calls
+                yield from self.warmups(case)
+                return
+        if case["kind"] == "seq":
+            yield from self.shrink_seq(case)
+            return
         if case["kind"] == "m" and len(case["ps"]) > 1:
             for p in case["ps"]:
                 yield dict(case, ps=[p])
@@ -466,6 +972,14 @@ class P(Prop):
         return self.cases(rng, "quick")
 
     def mutate(self, case, rng):
+        if case["kind"] == "seq":
+            for _ in range(20):
+                trs = [[list(q) for q in pts(t)] for t in case["tracks"]]
+                for tr in trs:
+                    if tr:
+                        tr[rng.randrange(len(tr))] = [float(rng.randint(0, 2)), float(rng.randint(0, 2)), float(rng.randint(0, 2))]
+                yield dict(case, tracks=trs)
+            return
         a, b = pts(case["a"]), pts(case["b"])
         if not a or not b:
             return
